@@ -362,6 +362,7 @@ class InterleaveProfile:
         cfg = gen_cfg(rnd, {"modules": rnd.choice(["xquery", "class", "class"]), "min_svc": rnd.choice([0, 1, 1, 2]), "p_logs": 0.1})
         timeout = rnd.random() < 0.5
         cfg["timeout"] = self.T if timeout else 0
+        cfg.pop("timeout_text", None)       # (this profile sets the timeout itself)
         barrier = None
         if not timeout and cfg["services"] and not cfg.get("wide_table") and rnd.random() < 0.35:
             # (not with more entries than table slots: which of them are served after a reload depends on which
